@@ -1608,6 +1608,39 @@ def _origin_is_bool(b, x):
     return False
 
 
+def first_token_invariant_is_enforced(prog, rep, R):
+    """C08.k — "indentation is a multiple of the configured width": a token that has to start its line (the token after a `//` comment, a
+    compiler directive ..) gets its line break from the wrapper; if the wrapper *continues* it, the reconstructor's safety net breaks
+    the line and writes the token's inter-token blanks as indentation.  Every first decision of a line — of every child line, under
+    every child-line option — is taken in find_optimal_solution, so that is where the invariant of the first token is enforced: before
+    the root decision is built there is a give-up exit (Err) on a path decided by `invariant(first token) is MustBreak`.  (A check
+    moved to the caller sees the first child line only.)"""
+    b = prog.body(OLF + "InternalOptimisingLineFormatter::find_optimal_solution")
+    if not rep.check(b is not None, R, "anchor:find_optimal_solution", "find_optimal_solution not found"):
+        return
+    stop = {c.bb for c in b.calls() if (c.callee or "").endswith("ParentPointerTree::new")}
+    if not rep.check(len(stop) == 1, R, "anchor:root-decision", "the root decision of the search (ParentPointerTree::new) is not built at exactly one place: %d" % len(stop)):
+        return
+    from table import Table, TooComplex, render
+    try:
+        tb = Table(prog, b, start=0, stop=stop, inline=0, max_paths=20000)
+    except TooComplex as e:
+        rep.fail(R, "first-decision:table", "the prologue of find_optimal_solution can no longer be enumerated path by path: %s" % e)
+        return
+    gave_up, reached = 0, 0
+    for (cons, res), end in zip(tb.rows, tb.ends):
+        inv_mb = any(c[0] == "is" and "get_formatting_invariant(arg1,0," in str(c[1]) and c[2] == "MustBreak" for c in cons)
+        if end is None and res is not None and render(res).startswith("Err(") and inv_mb:
+            gave_up += 1
+        if end is not None:
+            reached += 1
+    rep.check(gave_up >= 1 and reached >= 1, R, "first-token-MustBreak-can-give-up",
+              "find_optimal_solution no longer gives up when the first token of the line must start a line and the first decision continues it (no Err exit decided by "
+              "`get_formatting_invariant(0, line) is MustBreak` before the root decision): under ContinueAll a second or later child line that follows a `//` comment is continued, the "
+              "reconstructor's safety net breaks the line and the token's blanks become an indentation that is not a multiple of the configured width",
+              where="%s:%d" % (b.file, b.line), instance={"paths_to_root_decision": reached, "give_up_paths_on_MustBreak": gave_up})
+
+
 def check_c08(prog, rep, tier, cfg):
     line_comment_trailing_blanks(prog, rep, "C08.d")
     # a gap nobody decides keeps the input's blank count: more than one space between two tokens on a line
@@ -1615,6 +1648,7 @@ def check_c08(prog, rep, tier, cfg):
     line_list_traversals_are_complete(prog, rep, "C08.j")
     children_of_voided_lines_are_laid_out(prog, rep, "C08.f")
     consolidator_commits_atomically(prog, rep, "C08.i")
+    first_token_invariant_is_enforced(prog, rep, "C08.k")
     # C08.g — every blank of the input is scanned as leading whitespace (and so replaced by the decided counters): the scanner's blank
     # set is {<= U+0020, U+3000} and it stops only in front of a non-blank; a blank that is left over becomes an `Unknown` token and
     # is emitted as it is (shared with C13.b / C01.e)
@@ -2224,6 +2258,9 @@ def check_c09(prog, rep, tier, cfg):
     # not leak from an empty line onto the tokens collected next (shared with C07.j)
     import text as _text
     _text.finished_line_type_does_not_survive(prog, rep, "C09.i")
+    # C09.k — a token that is marked as verbatim is written with the line breaks of the input in front of it, so only what lies inside
+    # an open `pasfmt off` region is marked: one step of the toggle scan marks an On comment iff a region was open (shared with C07.f)
+    _text.check_c07(prog, AliasReport(rep, [("C07.f", r"^toggle:transition-table|^toggle:anchor|^anchor:FormattingToggler", "C09.k")]), tier, cfg)
     # ---------------------------------------------------------------- C09.c config enum mapping
     R = "C09.c"
     cv = [b for k, b in prog.bodies.items() if b.crate == "pasfmt.lib" and "LineEnding" in k and k.endswith("::from")]
